@@ -768,6 +768,12 @@ class Executor(Evaluator):
                 continue
             out.append((s_alt, res))
         self.used_contracts.add(con.qualname)
+        go = getattr(self.cur_contract, "extra", {}).get("ghost_out", {}) if self.cur_contract else {}
+        if node is not None and isinstance(node.func, ast.Name) and node.func.id in go and self.module is self.fi.module:
+            # final value of a ghost variable of the callee (existentially chosen there), bound to a ghost variable of the caller
+            for mine, theirs in go[node.func.id].items():
+                for s_alt, res in out:
+                    s_alt.env[mine] = gvals[theirs]
         gr = getattr(self.cur_contract, "extra", {}).get("ghost_results", {}) if self.cur_contract else {}
         if node is not None and isinstance(node.func, ast.Name) and node.func.id in gr and self.module is self.fi.module:
             for s_alt, res in out:
